@@ -143,6 +143,7 @@ func c14Hex(c *Ctx) {
 			if !ok || st.Kind != "Cmp" {
 				continue
 			}
+			dbg("ReadPrivateKeyFromHex cmp: %s vs %s", normBig(be.valueAt(st.X, st.Call).String()), normBig(be.valueAt(st.Y, st.Call).String()))
 			if normBig(be.valueAt(st.X, st.Call).String()) == D && normBig(be.valueAt(st.Y, st.Call).String()) == "sub(N,0x1)" {
 				if ps, ok := passSuccFor([3]bool{true, false, false}, st.TrueSet); ok {
 					atoms = append(atoms, Atom{ifi, ps, "d < n-1"})
